@@ -209,6 +209,11 @@ func runOne(t *testing.T, job *Job, idx int, seed uint64, ch *Choices) (res *Run
 	}()
 	defer close(stopWd)
 
+	var pre *watchPre
+	if job.Engine == "watch" {
+		pre = prepareWatch(ch, job, idx)
+		defer pre.cleanup()
+	}
 	var c *Ctl
 	func() {
 		defer func() {
@@ -231,7 +236,11 @@ func runOne(t *testing.T, job *Job, idx int, seed uint64, ch *Choices) (res *Run
 					res.Panic = fmt.Sprint(r) + "\n" + string(debug.Stack())
 				}
 			}()
-			dispatch(c, job, idx, res)
+			if pre != nil {
+				runWatchJob(c, job, idx, res, pre)
+			} else {
+				dispatch(c, job, idx, res)
+			}
 			res.SimNS = int64(c.Now())
 			c.onEvent = nil
 			c.onPark = nil
